@@ -872,3 +872,9 @@ package app
 //@   ensures C20.changes_known [C20]: (forall i int :: in_range(i, becomeActive) ==> clusterState[becomeActive[i]] != nil) && (forall i int :: in_range(i, becomeInactive) ==> clusterState[becomeInactive[i]] != nil) && (forall i int :: in_range(i, becomeDataLag) ==> clusterState[becomeDataLag[i]] != nil)
 //@   loop 1 invariant synckeys: forall i int :: in_range(i, syncReplicas) ==> clusterState[syncReplicas[i]] != nil
 //@   loop 3 invariant known: (forall i int :: in_range(i, becomeInactive) ==> clusterState[becomeInactive[i]] != nil) && (forall i int :: in_range(i, dataLagging) ==> clusterState[dataLagging[i]] != nil)
+//@ func app.convertNodesToReplicationControllers
+//@   requires c20 [safety]: forall i int :: in_range(i, nodes) ==> nodes[i] != nil
+//@   loop 1 invariant nonnil: forall i int :: in_range(i, ifaceNodes) ==> ifaceNodes[i] != nil
+//@   ensures C20.convert_nonnil [C20]: forall i int :: in_range(i, result) ==> result[i] != nil
+//@ func app.NewOfflineModeFilter
+//@   requires c20 [safety]: cfg != nil && logger != nil
